@@ -219,7 +219,8 @@ def pdb_text(atoms, *, ter=True, end=True, header=True):
     prev = None
     for a in atoms:
         if (ter and prev is not None and prev["record"] == "ATOM"
-                and (a["chain"] != prev["chain"] or a["record"] != "ATOM")):
+                and (a["chain"] != prev["chain"] or a["record"] != "ATOM"
+                     or a["res_idx"] < prev["res_idx"])):
             lines.append(ter_line(serial, prev["res_name"], prev["chain"],
                                   prev["res_seq"], prev["icode"]))
             serial += 1
